@@ -7,7 +7,15 @@ ASSUME = [
     'similarity heuristics of nbdime.diffing.notebooks (cell/output/mime predicates, compare_strings_approximate) are deterministic functions: oracles with no hypothesis beyond "output predicates imply equal output_type" (validated on every recorded call)',
     'difflib opcodes form a valid edit script (validated per recorded call)',
     'nbformat.from_dict / json round trip preserve values; dict order is unobservable through canonical serialisation',
+    'hypothesis of notebook_diff_patch_roundtrip: cell sources given as lists hold strings (sources_are_strings); counted per case (outside_theorem_hypothesis)',
+    'the theorem is partial correctness: that diff_notebooks returns on valid notebooks is established by this run, not by proof',
 ]
+
+def sources_are_strings(nb):
+    for c in nb.get('cells', []) if isinstance(nb.get('cells'), list) else []:
+        s = c.get('source') if isinstance(c, dict) else None
+        if isinstance(s, list) and not all(isinstance(x, str) for x in s): return False
+    return True
 
 def judge(case, res):
     a, b = case['a'], case['b']
@@ -128,6 +136,7 @@ def run(tier, seed):
                         chk.broken_obligation('correspondence:nbdiff', {'a': c['a'], 'b': c['b'], 'impl': res.get('ok'), 'model': val, 'oracle_misses': misses})
     else:
         chk.broken_obligation('model-build', b.log[-800:])
+    chk.cov['outside_theorem_hypothesis'] = sum(1 for c in cases if not sources_are_strings(c['a']))
     chk.cov.update({'evaluations': len(cases), 'distinct_nontrivial': len(nontrivial),
                     'rule': 'notebook pairs from harness/gennb.py (rich: all cell/output/mime kinds, minors 0-5, ids, attachments, exotic separators; plain; pairs of small notebooks), related by edit scripts or unrelated; the first cases also go through nbdiff --out / nbpatch -o files; non-trivial = non-empty diff, distinct by canonical JSON',
                     'input_distribution': hist, 'traces_validated_against_impl': t1, 'model_impl_mismatches': mism,
